@@ -1039,3 +1039,94 @@ _add("C03", "print_erase (the printer ignores source positions: print(d) = print
             "the statement as written outside R4), print_parse_located_loss, print_parse_located_iff (exact exclusion), print_stable_located.",
      "print_total only says the output ends with a newline: 'printing never raises' / 'is deterministic' hold for the MODEL by construction (a total "
      "Lean function without error branch) and are tied to the code only by the correspondence and the direct oracle (stated in its doc comment).")
+
+
+# ---------------------------------------------------------------------------------------------------------------
+# C18 / C19: narrative brought up to date with the tree after the first wave of deepening builders (texts REPLACE the
+# ones above; obligation names are appended by manifest_gen.py).
+# ---------------------------------------------------------------------------------------------------------------
+CHECKS["C18"].update({
+    "text": ("Generic table-driven model of lang/visitor.py over rose trees (Visit.lean: _visit_method wrapper with keep / replace / delete / skip / raise, "
+             "map_and_filter, classdispatch and the isinstance cascade, DispatchingVisitor, ChainedVisitor before and after the SkipNode repair, chains of "
+             "chains). The traversal TABLE - every statement of every _visit_* body (attribute, one/many, guard, assignment, call target), the visit / "
+             "dispatcher / enter_* / leave_* registries, __slots__ of every node class, the flags crossKind and chainPersonalSkip observed on the real code, "
+             "and four witness documents parsed by the real parser - is RE-EXTRACTED on every run (Generated/VisitTable.lean). Proved for every table and "
+             "visitor: identity_noop, balanced (well-bracketed trace, parents around children), once, coverage_partial (calls of an identity visit = "
+             "pre/post-order over the IMPLEMENTED child relation) with its converse identity_total / identity_completes_iff, model_total / "
+             "visit_never_out_of_fuel, covered_children_visited; delete_local / replace_local / skip_local and, at every position reached through the "
+             "implemented relation, delete_at / replace_at / skip_at (= Spec.editAt); chained_order, chained_order_personal / chained_skip_personal "
+             "(repaired SkipNode semantics), nested_chain_flat_is_chain. Closed by decide +kernel on the generated table: table_closed, visit_total, "
+             "dispatching_total, table_steps_distinct, dispatchers_agree_with_visit, missed_children_today (coverage read as: all children EXCEPT 15 listed "
+             "(kind, attribute) pairs, W1-W4) + uncovered_partition, once_today, edits_today. Coverage WITHOUT the premise that a child is dispatched to "
+             "the method of its own kind: Reached / reached_walk / reached_visited (every table: whatever method a call target resolves to), Covered "
+             "(purely structural) with covered_reached on well-kinded trees, table_kinded_today (every call target, dispatcher or directly called method, "
+             "runs on every child class that ast.py / the parser admit there exactly the statements of that class's own method; child-kind table "
+             "re-extracted from the annotations of ast.py + parser probes) and the closed form all_covered_children_visited. Sibling order (W5) as "
+             "theorems: list_members_in_order, siblings_in_statement_order (every table), sibling_order_inversions_today (statement order contradicts "
+             "slot = source order for exactly four (kind, first, second) triples: default_value before type, type before arguments, operation types "
+             "before directives x2) and siblings_in_source_order_today (all other sibling pairs of all kinds are visited in source order); "
+             "visited_reached / reached_covered / visited_iff_covered_today (EXACTLY the covered nodes are entered and left). The success premise "
+             "`visit = .ok` of all these theorems is discharged by a decidable shape check read off the generated table (VisitShape.lean): WellShaped, "
+             "wellShaped_visit_ok (every observer, every state, fuel t.depth), witnesses_well_shaped, evaluated by the driver on every document of "
+             "every run. balanced_strict (an unmatched enter is tied to a deletion / skip of that node in the state reached; a kept or replaced node "
+             "IS left). Chain statements for the loop the code has (chained vs true, flag chainPersonalSkip): chained_order_current (enter in order "
+             "AND leave in reverse), chained_observer_current, chain_discards_delete/replace_current, chain_not_faithful_current. "
+             "Full coverage is REFUTED (full_coverage_false, gaps_executable, "
+             "gaps_type_system, order_violated: W1-W5) and ChainedVisitor discards member deletions / replacements (chain_not_faithful, W6). Tied by trace "
+             "(phase, node identity, kind, handler) and result-tree correspondence with scripted real visitors at every node position, Spec.editAt against the "
+             "real code, and a direct exactly-once / nesting / locality / chain-order oracle."),
+    "note": ("Trusted: Lean kernel; the table extractor C18_table.py (shape-checked static extraction from the Python ast of visitor.py; a dynamic fallback "
+             "C18_dynamic.py observes the table on one maximal instance per node class when a shape is not recognised - evidence key `extraction`); "
+             "generators. The hand-written wrapper / map_and_filter / chain models are tied by the correspondence only. Hypothesis of the closed coverage / "
+             "order theorems: the document is well-kinded w.r.t. the extracted child-kind table (checked on every document of every run: "
+             "`wellkinded:*`), and `__slots__` order = source order (checked against `loc` on the probe documents at extraction). PARTIAL: no Lean encoding "
+             "Ast.Document -> Visit.Node with encode_wellShaped; parser-produced documents are tied to WellShaped by the witnesses and by the driver "
+             "evaluating it on every document (`corr:shape:ill-shaped`). The theorems named chained_order / chained_observer / chained_skip / "
+             "chain_discards_* / chain_not_faithful concern the loop BEFORE fix W8 (said in their doc comments). Only exercised: in-place aliasing "
+             "(child lists never edited in place, structurally equal siblings), DispatchingVisitor class histories, `visitors` reassigned after "
+             "construction, ChainedVisitor subclasses as members, CPython recursion limit (known finding W9: RecursionError with enters without leaves on "
+             "documents nested deeper than the interpreter stack). Known findings W1-W6 (pinned by the literal event lists of test_visitor.py or not a small "
+             "repair). Repaired: W2b, W3b, W5b, W7, W8, W10."),
+    "technique": "Lean 4 proof over source-extracted traversal table (generic theorems + decide on the generated table) + visitor trace / tree correspondence",
+})
+CHECKS["C19"].update({
+    "text": ("Model of utilities/collect_fields.py (collect_fields_untyped with the shared visited-fragments set, selected_fields / _selected_paths with its "
+             "re-extracted skip hook) and utilities/max_depth.py (MaxDepthValidationRule.__call__: operation_name filter, per-operation variable coercion "
+             "with fallback to the raw request variables, conditions that cannot be evaluated keep the selection, _nesting_levels with the nesting budget "
+             "and the `unbounded` verdict on fragment cycles) in Depth.lean, behind variant flags re-extracted from the source on every run "
+             "(Generated/DepthVariant: tolerantSkip, budgeted, sharedSeen, lenientSelectedFields), against an independent depth specification "
+             "(DepthSpec.depth: longest chain of nested selection sets with fragments inlined and @skip/@include evaluated). Headline, for the rule the tree "
+             "runs today (ruleB): no_raise_all and pipelineB_never_raises (no hypothesis at all), flags_iff_final (unique fragment names + declarative "
+             "acyclicity only: flagged <=> selected by the filter and depthRK > limit, reported depth exact, no fuel, no bound), flags_iff_final_available "
+             "(per-operation availability => the plain specified depth), unbounded_only_if_invalid, cyclic_repaired_reports; the earlier layers flags_iff "
+             "/ flags_iff_v / flags_iff_raw / flags_uncoercible / flags_iff_repaired, pipeline_rejects_iff(_raw/_repaired) (request rejected with a depth "
+             "error iff a selected operation is deeper than n, all n >= 0, all filters), no_raise(_v/_repaired), name_filter, acyclic_iff_Acyclic, "
+             "depth_fuel_irrelevant, measured_eq_depth. Wrapping never lowers (never changes) the measured depth: wrap_inline_ge / wrap_spread_ge "
+             "(operation level), wrap_inline_in_fragment_ge / wrap_spread_in_fragment_ge (inside fragment bodies), and for the live measure depthK with ANY "
+             "request variables wrap_inline_final, wrap_spread_final, wrap_inline_in_fragment_final, wrap_spread_in_fragment_final; the validity of the "
+             "wrapped document is DERIVED (wrap_inline_in_fragment_valid / wrap_spread_in_fragment_valid from unique names + freshness of the new "
+             "fragment name, explicit rank), giving wrap_inline_in_fragment / wrap_spread_in_fragment and the _final_derived forms without any hypothesis "
+             "on the wrapped document. The loop of _nesting_levels is modelled AS WRITTEN (shape re-extracted: DepthFrontier.nestingLevelsF = the "
+             "frontier of selection lists of today's tree; DepthMerged.nestingLevelsM = one list per level, proposed fix C19-H3) and proved equal to "
+             "the recursive measure on acyclic documents: nestingLevelsFS_ok, frontier_eq_recursive, ruleF_eq_ruleB, flags_iff_final_frontier, "
+             "ruleF_never_raises (and the same five for the merged loop); for the CURRENT rule also name_filter_final / name_filter_frontier, "
+             "pipeline_rejects_iff_final (pipelineB), ruleB_eq_expected (Props/C19_current.lean) - the theorems about rule / ruleV / ruleR / ruleRT / "
+             "depthFixed are layers about intermediate patch states and say so in their doc comments. Outside probe C19-1 (a directive that DECIDES next to one that cannot be "
+             "evaluated is ignored by today's hook: `q @skip(if: true) @include(if: $unknown) { … }` is measured): decisive_directive_kept_today (model = "
+             "code), hunter_depth_zero; proposed fix C19-H4 modelled behind the re-extracted flag separateDirectives (skipSelectionT3, ruleF3 / ruleM3, "
+             "Lemmas/DepthSeparate): skipT3_eq_T_of_bound, skipT3_skips_more, measuredF3_eq_depthK3, flags_iff_final_separate, "
+             "decisive_directive_skipped_repaired; deterministic class decisive-probe with the three-valued reference. selected_fields: selected_fields_exact "
+             "(listed paths = selected paths within maxdepth matching the pattern), _sound, _complete, _exact_lenient, _lenient_eq_strict. decide "
+             "refutations for the original rule and the original selected_fields (Props/C19_orig.lean, C19_paths.lean). Tied by correspondence (error set "
+             "per operation, raises, listed paths) and the direct oracles flagged <=> reference depth > limit and listed = reference paths on exhaustive "
+             "small distributions of a selection over inline / named fragments, raw JSON variable assignments, histories on one rule instance and Document, "
+             "cyclic documents, wide selection sets, deep chains (500..3000), also through graphql_blocking(validators=[default, rule])."),
+    "note": ("Trusted: Lean kernel; generators; extraction of the variant flags and of the loop shape; the `id`-based de-duplication inside one level of "
+             "_nesting_levels is not modelled (result-transparent, exercised); statelessness of the rule between calls is checked by "
+             "the history stream, not proved; float forms of request variables are not generated. Proposed fix C19-H3 (one list per level: polynomial "
+             "number of collections, unedited suite passes; until it is applied the check reports H3 as a known finding) and C19-H4 (directives "
+             "evaluated on their own; until applied: known finding H4, known_findings.d/C19.json - to be removed with the fix). Known findings H1 (a FLAT operation behind ~988 forwarding fragments is reported too deep: RecursionError inside one "
+             "level; not a small repair: needs an explicit stack in collect_fields_untyped, and validation / execution fail on such documents anyway), H3 "
+             "(exponential number of collections with key merging across levels; verdicts correct; fix proposed). Repaired: Q1, Q1sf, Q1-vars, Q1-vars2, Q2, Q3, H2."),
+    "technique": "Lean 4 proof (rule = spec depth on the live variant, wrapping invariance, path exactness) + exhaustive small-scope correspondence and cost oracle",
+})
